@@ -10,8 +10,23 @@ TInit == Init /\ TBaseInit /\ ph = 0 /\ stmts = <<>>
 KwOf(e) == [n \in (DOMAIN e.kw) \ {"_"} |-> e.kw[n]]
 G2(e) == IF e.g >= 0 THEN e.g ELSE gen + Len(IdSlots(e.c))
 
+\* Traces recorded through the source hooks (the repository's own tests running on the hooked library) give the projected
+\* state in front of every top-level call, because calls that are not hooked (attribute writes, loading) happen in
+\* between: the specification adopts that state and the hooked call that follows is then an ordinary action.
+PoolIndex(q, i) == CHOOSE k \in DOMAIN q : q[k] = i
+AdoptState(e) ==
+    /\ born' = [c \in ClassSet |-> e.born[c]]
+    /\ pool' = [c \in ClassSet |-> e.pool[c]]
+    /\ val' = [c \in ClassSet |-> [i \in Ord |->
+                 IF InSeq(i, e.pool[c]) THEN [n \in Rng(NonRef(c)) |-> e.attr[c][PoolIndex(e.pool[c], i)][n]]
+                 ELSE [n \in Rng(NonRef(c)) |-> "unset"]]]
+    /\ fwd' = [a \in AIdx |-> [t \in Ord |-> IF t <= Len(e.nav[a].fwd) THEN e.nav[a].fwd[t] ELSE <<>>]]
+    /\ bwd' = [a \in AIdx |-> [s \in Ord |-> IF s <= Len(e.nav[a].bwd) THEN e.nav[a].bwd[s] ELSE <<>>]]
+    /\ gen' = 0 /\ used' = {e.used[j] : j \in DOMAIN e.used} /\ pk' = "" /\ res' = "none"
+
 Step(e) ==
-    CASE e.op = "New" -> IF Len(e.ids) = Len(IdSlots(e.c)) THEN NewCall(e.c, e.pos, KwOf(e), e.ids, G2(e))
+    CASE e.op = "Adopt" -> AdoptState(e)
+      [] e.op = "New" -> IF Len(e.ids) = Len(IdSlots(e.c)) THEN NewCall(e.c, e.pos, KwOf(e), e.ids, G2(e))
                          ELSE NewC(e.c, e.pos, KwOf(e))
       [] e.op = "NewUnknown" -> NewUnknown(e.c) /\ UNCHANGED mvars
       [] e.op = "Relate" -> Relate(e.x[1], e.x[2], e.y[1], e.y[2], e.rel, e.ph)
